@@ -113,7 +113,7 @@ func (b *EvteBox) EncodeSW(sw bits.SliceWriter) error {
 			return err
 		}
 	}
-	return err
+	return sw.AccError()
 }
 
 // Info - write specific box info to w
